@@ -248,10 +248,23 @@ static bool send_fault(int fd, bool & mine, int & o)
     return g_faults.send_fail_at >= 0 && g_faults.send_count++ == g_faults.send_fail_at;
 }
 
+// 0 = nothing, 1 = send only half, 2 = fail with EINTR
+static int eintr_fault(int fd, size_t len)
+{
+    std::lock_guard<std::mutex> l(g_mu);
+    if (g_client_fds.count(fd) == 0) return 0;
+    if (g_faults.eintr_pending) { g_faults.eintr_pending = false; return 2; }
+    if (g_faults.send_eintr_at >= 0 && len > 1 && g_faults.eintr_count++ == g_faults.send_eintr_at) { g_faults.eintr_pending = true; return 1; }
+    return 0;
+}
+
 ssize_t send(int fd, const void *buf, size_t len, int flags)
 {
     static auto f = real<ssize_t (*)(int, const void *, size_t, int)>("send");
     bool mine; int o = 0;
+    int ef = eintr_fault(fd, len);
+    if (ef == 2) { { std::lock_guard<std::mutex> l(g_mu); o = ord(fd); } ilog("dw:" + std::to_string(o) + ":err"); errno = EINTR; return -1; }
+    if (ef == 1) len = len / 2;
     if (send_fault(fd, mine, o)) { ilog("dw:" + std::to_string(o) + ":err"); errno = EPIPE; return -1; }
     ssize_t r = f(fd, buf, len, flags);
     if (mine && (r >= 0 || (errno != EAGAIN && errno != EWOULDBLOCK && errno != EINTR)))
